@@ -707,7 +707,13 @@ class Planner:
             m = self.call("ufl.Measure", kind, kind="measure", **kw)
         if m is not None and r.random() < 0.15:
             out = self.new()
-            if self.emit(["meth", out, self.ref(m), "__call__", [], {"degree": r.choice([1, 2, 3])}], kind="measure"):
+            kw2 = {"degree": r.choice([1, 2, 3])}
+            if self.dicts and r.random() < 0.5:
+                # the user's own dict and a degree in one call: the measure must work on a copy
+                kw2["metadata"] = self.ref(r.choice(self.dicts))
+                if r.random() < 0.3:
+                    kw2["scheme"] = "default"
+            if self.emit(["meth", out, self.ref(m), "__call__", [], kw2], kind="measure"):
                 m = out
         return kind, m
 
